@@ -18,10 +18,15 @@ case_strategy = st.fixed_dictionaries({
     "threads": st.integers(1, 4),
     "phases": st.integers(1, 4),
     "msgs": st.sampled_from([0, 1, 5, 20, 40]),
-    "sizeclass": st.sampled_from([0, 1, 1, 2, 3, 3]),
+    "sizeclass": st.sampled_from([0, 1, 1, 2, 3, 3, 4, 4]),
     "tags": st.integers(1, 3),
     "seed": st.integers(1, 1 << 30),
+    # transport under the network layer: Open MPI's default on one node completes large receives synchronously
+    # (single-copy shared memory); the other two complete them asynchronously, as a real network does
+    "transport": st.sampled_from([0, 1, 1, 2]),
+    "gap": st.sampled_from([0, 0, 50, 400]),
 })
+TRANSPORTS = [[], ["--mca", "btl_vader_single_copy_mechanism", "none"], ["--mca", "btl", "self,tcp"]]
 
 
 def finding_key(case, failkey):
@@ -31,7 +36,7 @@ def finding_key(case, failkey):
 def check(case, work):
     hosts = case["hosts"]
     msgs = case["msgs"]
-    if case["sizeclass"] == 3:
+    if case["sizeclass"] >= 3:
         msgs = min(msgs, 20)  # multi-MB messages: keep the volume bounded
     shm = os.path.join(work, "stamps.bin")
     open(shm, "wb").write(b"\0" * 4096)
@@ -43,7 +48,8 @@ def check(case, work):
     env["GALOIS_VERIF_TOPO"] = str(max(2, case["threads"]))
     env["GALOIS_DO_NOT_BIND_THREADS"] = "1"
     env["OMPI_MCA_mpi_yield_when_idle"] = "1"
-    cmd = ["mpirun", "--allow-run-as-root", "--oversubscribe", "-np", str(hosts), NH, "-nseed=%d" % case["seed"],
+    cmd = ["mpirun", "--allow-run-as-root", "--oversubscribe", "--bind-to", "none"] + TRANSPORTS[case.get("transport", 0)] + ["-np", str(hosts), NH, "-nseed=%d" % case["seed"],
+           "-ngap=%d" % case.get("gap", 0),
            "-nthreads=%d" % case["threads"], "-nphases=%d" % case["phases"], "-nmsgs=%d" % msgs, "-nsizeclass=%d" % case["sizeclass"],
            "-ntags=%d" % case["tags"], "-nout=" + os.path.join(work, "net"), "-nshm=" + shm]
     rc, out, err = run_cmd(cmd, timeout=300, env=env, cwd=work)
@@ -63,6 +69,7 @@ def check(case, work):
         total += int(p[4])
         big += int(p[6])
     labels = {"hosts": hosts, "threads": case["threads"], "sizeclass": case["sizeclass"], "phases": case["phases"],
+              "transport": ["default", "sm-no-single-copy", "tcp"][case.get("transport", 0)], "gap": case.get("gap", 0),
               "messages": min(total, 400) // 50 * 50}
     return labels, hosts >= 2 and case["threads"] >= 2 and big >= 1
 
